@@ -99,3 +99,20 @@ def build(eng, prop):
         raises={"ValueError": exc}, modifies=mod + ["$alloc"],
         dead=["graph = self.graph", "assert graph is not None", "if not replace_graph_outputs", "raise ValueError", "for i, output in enumerate(graph.outputs)",
               "if output is self", "graph.outputs[i] = replacement"]))
+
+
+def add_resize_outputs_effect_target(eng):
+    """Node.resize_outputs: `a rejected edit changes nothing` - every ValueError exit (a removed output still has uses)
+    precedes the first store: the outputs tuple, the producer/index slots of every pre-existing value and the device
+    configurations are what they were.  Effect contract in lenient mode (validate-before-mutate)."""
+    def setup(e, p, env):
+        e.lenient = True
+    t = Target("Node.resize_outputs[effects]", mod=CORE, qual="Node.resize_outputs", self_cls="Node", params=dict(new_size=INT),
+               requires=[], ensures=[], setup=setup,
+               raises={"ValueError": ["unchanged_old('Node._outputs', 'Value._producer', 'Value._index', 'Node.device_configurations')", "ir_clean()"]},
+               raises_default=[], assert_mode="raise")
+    t.local_containers = ("removed_outputs", "new_outputs")
+    # the two loops AFTER the validation loop are the mutation: they may write the detached outputs' slots and this node's
+    # annotations (the validation loop keeps the default frame: it must be store-free)
+    t.loops = {"for output in removed_outputs": LoopSpec(invariant=[], modifies=["Value._producer", "Value._index", "Node.device_configurations", "$alloc"])}
+    eng.add_target(t)
